@@ -3,6 +3,8 @@ import Mathlib.Tactic.Linarith
 import Mathlib.Algebra.Order.Field.Basic
 import AffVerif.Model.Aff
 /-! Helper lemmas about the list-based linear algebra layer (over a commutative ring). -/
+set_option linter.unusedSectionVars false
+set_option linter.unusedVariables false
 namespace AV
 variable {α : Type} [CommRing α]
 
